@@ -55,31 +55,14 @@ Theorem C18_values : forall a h ns root r h' p x nd,
 Proof. exact call_values. Qed.
 Print Assumptions C18_values.
 
-(* aliasing: two field paths (any depth, through containers that hand the memo down) that lead to one object in the
-   source lead to one object in the result - for every copy flag *)
+(* aliasing: two field paths (any depth, through any containers incl. SpatialDimension components) that lead to one
+   object in the source lead to one object in the result - for every copy flag *)
 Theorem C18_alias : forall a h ns root r h' p q x,
   wf_heap h -> root < length h -> call_top a h ns root = Some (r, h') -> p <> [] -> q <> [] ->
-  resolve_g h root p = Some x -> resolve_g h root q = Some x ->
+  resolve h root p = Some x -> resolve h root q = Some x ->
   exists z, resolve h' r p = Some z /\ resolve h' r q = Some z.
 Proof. exact call_alias. Qed.
 Print Assumptions C18_alias.
-
-(* ... but not through SpatialDimension, whose apply_ drops the memo: the faithful model violates the alias rule
-   (root = Mixin [spatial; t], spatial = Spatial [t; u; v]: clone() yields two different copies of t).  KF-C18-1 *)
-Theorem C18_alias_spatial_refuted : exists h ns root r h' x z z',
-  wf_heap h /\ call_top Clone h ns root = Some (r, h')
-  /\ resolve h root [0; 0] = Some x /\ resolve h root [1] = Some x
-  /\ resolve h' r [0; 0] = Some z /\ resolve h' r [1] = Some z' /\ z <> z'.
-Proof.
-  exists [NTensor (mkT KFloat P32 0 0 false); NTensor (mkT KFloat P32 1 1 false); NSpatial [0; 1; 1]; NMixin [2; 0]],
-         2, 3. do 5 eexists.
-  split.
-  - intros d fs [H|H]; destruct d as [|[|[|[|d]]]]; simpl in H; try discriminate; try (destruct d; discriminate);
-      injection H as <-; repeat constructor.
-  - vm_compute. split; [reflexivity|]. split; [reflexivity|]. split; [reflexivity|]. split; [reflexivity|].
-    split; [reflexivity|]. discriminate.
-Qed.
-Print Assumptions C18_alias_spatial_refuted.
 
 (* copy=True / clone(): nothing reachable in the result shares a storage with any tensor (or module tensor) of the
    source, and every mutable plain object, module and container of the result is a new object *)
@@ -91,48 +74,49 @@ Theorem C18_fresh : forall a h ns root r h' p z n',
 Proof. exact call_fresh. Qed.
 Print Assumptions C18_fresh.
 
-(* the source is untouched: with copy=True every node of the source heap is unchanged (the call only allocates);
-   without copy every node except module nodes is unchanged *)
+(* for EVERY copy flag module fields (Rotation) of the result are new objects whose tensors share no storage with the
+   source: the module is deep-copied before Module._apply converts it *)
+Theorem C18_module_fresh : forall a h ns root r h' p z ts',
+  wf_heap h -> root < length h -> heap_below ns h ->
+  call_top a h ns root = Some (r, h') -> resolve h' r p = Some z -> nth_error h' z = Some (NModule ts') ->
+  length h <= z /\ forall i n s, nth_error h i = Some n -> In s (storages n) -> ~ In s (map t_storage ts').
+Proof. exact call_module_fresh. Qed.
+Print Assumptions C18_module_fresh.
+
+(* the source is untouched, for every call and every copy flag: every node of the source heap is unchanged (the call
+   only allocates) *)
 Theorem C18_source_untouched : forall a h ns root r h',
   wf_heap h -> root < length h -> call_top a h ns root = Some (r, h') ->
-  forall i n, nth_error h i = Some n -> (c_copy (parse a) = true \/ forall ts, n <> NModule ts) -> nth_error h' i = Some n.
+  forall i n, nth_error h i = Some n -> nth_error h' i = Some n.
 Proof. exact call_source_untouched. Qed.
 Print Assumptions C18_source_untouched.
 
-(* ... and module fields ARE modified in place by a precision-changing call without copy (Module._apply): KF-C18-2 *)
-Theorem C18_source_modified_nocopy_refuted : exists h ns root r h',
-  wf_heap h /\ call_top (Single false) h ns root = Some (r, h') /\ nth_error h' 0 <> nth_error h 0.
-Proof.
-  exists [NModule [mkT KFloat P64 0 0 false]; NMixin [0]], 1, 1. do 2 eexists.
-  split.
-  - intros d fs [H|H]; destruct d as [|[|d]]; simpl in H; try discriminate; try (destruct d; discriminate);
-      injection H as <-; repeat constructor.
-  - vm_compute. split; [reflexivity|discriminate].
-Qed.
-Print Assumptions C18_source_modified_nocopy_refuted.
-
-(* the hypothesis `call_top ... = Some` of the theorems above is satisfiable on every acyclic graph whose
-   SpatialDimensions hold tensors / plain values: the call returns (the fuel never runs out) *)
-Theorem C18_total : forall a h ns root, wf_heap h -> spatial_ok h -> root < length h ->
+(* the hypothesis `call_top ... = Some` of the theorems above is satisfiable on every acyclic graph: the call returns
+   (the fuel never runs out) *)
+Theorem C18_total : forall a h ns root, wf_heap h -> root < length h ->
   exists r h', call_top a h ns root = Some (r, h').
 Proof. exact call_total. Qed.
 Print Assumptions C18_total.
 
-(* non-vacuity: a KData-like graph: header {spatial [t0 t0 t1], rotation module, dict}, data (complex), traj {t0, view of t1};
-   double(copy=True): all float/complex at P64, the int tensor untouched, sharing of t0 kept outside the spatial *)
+(* non-vacuity: a KData-like graph: header {spatial [t0 t0 t1], rotation module, dict}, data (complex), traj {t0, view of t1, t0};
+   double(copy=True): all float/complex at P64, the int tensor untouched, t0 converted ONCE (node 10) and shared by the
+   SpatialDimension and the trajectory *)
 Example C18_example :
-  call_top (Double true)
+  encode_result (call_top (Double true)
     [NTensor (mkT KFloat P32 0 0 false); NTensor (mkT KInt P32 1 1 false); NSpatial [0; 0; 1];
      NModule [mkT KFloat P32 2 2 false; mkT KBool P16 3 3 false]; NPlain 4 true; NMixin [2; 3; 4];
-     NTensor (mkT KComplex P32 4 5 false); NTensor (mkT KInt P32 1 6 true); NMixin [0; 7; 0]; NMixin [5; 6; 8]] 5 9
-  = Some (20,
-    [NTensor (mkT KFloat P32 0 0 false); NTensor (mkT KInt P32 1 1 false); NSpatial [0; 0; 1];
-     NModule [mkT KFloat P32 2 2 false; mkT KBool P16 3 3 false]; NPlain 4 true; NMixin [2; 3; 4];
-     NTensor (mkT KComplex P32 4 5 false); NTensor (mkT KInt P32 1 6 true); NMixin [0; 7; 0]; NMixin [5; 6; 8];
-     NTensor (mkT KFloat P64 5 0 false); NTensor (mkT KInt P32 6 1 false); NSpatial [10; 10; 11];
-     NModule [mkT KFloat P64 7 2 false; mkT KBool P16 8 3 false]; NPlain 4 true; NMixin [12; 13; 14];
-     NTensor (mkT KComplex P64 9 5 false); NTensor (mkT KFloat P64 10 0 false); NTensor (mkT KInt P32 11 6 false);
-     NMixin [17; 18; 17]; NMixin [15; 16; 19]]).
+     NTensor (mkT KComplex P32 4 5 false); NTensor (mkT KInt P32 1 6 true); NMixin [0; 7; 0]; NMixin [5; 6; 8]] 5 9)
+  = Some (19, [(0, [0; 1; 0; 0; 0]); (0, [2; 1; 1; 1; 0]); (2, [0; 0; 1]); (3, [0; 1; 2; 2; 0; 3; 0; 3; 3; 0]); (4, [4; 1]);
+               (1, [2; 3; 4]); (0, [1; 1; 4; 5; 0]); (0, [2; 1; 1; 6; 1]); (1, [0; 7; 0]); (1, [5; 6; 8]);
+               (0, [0; 2; 5; 0; 0]); (0, [2; 1; 6; 1; 0]); (2, [10; 10; 11]); (3, [0; 2; 7; 2; 0; 3; 0; 8; 3; 0]); (4, [4; 1]);
+               (1, [12; 13; 14]); (0, [1; 2; 9; 5; 0]); (0, [2; 1; 10; 6; 0]); (1, [10; 17; 10]); (1, [15; 16; 18])]).
+Proof. vm_compute. reflexivity. Qed.
+
+(* single() without copy on {Rotation(float64), float32 tensor}: the module is copied and converted (node 3, new storage),
+   the source module (node 0) keeps float64, the float32 tensor is shared *)
+Example C18_module_nocopy_example :
+  encode_result (call_top (Single false) [NModule [mkT KFloat P64 0 0 false]; NTensor (mkT KFloat P32 1 1 false); NMixin [0; 1]] 2 2)
+  = Some (4, [(3, [0; 2; 0; 0; 0]); (0, [0; 1; 1; 1; 0]); (1, [0; 1]); (3, [0; 1; 2; 0; 0]); (1, [3; 1])]).
 Proof. vm_compute. reflexivity. Qed.
 
 (* a cyclic graph: python raises RecursionError, the model runs out of fuel *)
